@@ -87,6 +87,14 @@ func (c05Suite) Gen(rng *Rng, tier string, w *bufio.Writer, stats *Stats) {
 	for _, q := range c05TotalityShapes {
 		emit("totality", "q "+payload(q, nil))
 	}
+	for _, q := range c05CaseKeyShapes {
+		emit("casekeys", "q "+payload(q, nil))
+		stats.Inc("casekeys")
+	}
+	for i := 0; i < npath; i++ {
+		emit("casekeys", "q "+payload(genCaseKeyQuery(rng), nil))
+		stats.Inc("casekeys")
+	}
 	for i := 0; i < npath; i++ {
 		emit("pathshape", "q "+payload(genPathShapeQuery(rng), nil))
 		stats.Inc("pathshapes")
@@ -725,6 +733,100 @@ var c05ParamCases = []c05ParamCase{
 	{"create-with-map-parameter", "CREATE (n:NodeKind1 $props) RETURN n", func() map[string]any {
 		return map[string]any{"props": map[string]any{"name": "x", "tags": []string(nil)}}
 	}},
+	// parameter VALUES of library types: they belong to the caller too (nil vs empty is part of the comparison)
+	{"properties-fresh-nil-map", "MATCH (n $props) RETURN n", func() map[string]any {
+		return map[string]any{"props": graph.NewProperties()}
+	}},
+	{"properties-fresh-nil-map-create", "CREATE (n:NodeKind1 $props) RETURN n", func() map[string]any {
+		return map[string]any{"props": &graph.Properties{}}
+	}},
+	{"properties-with-values-nil-tracking", "MATCH (n $props) RETURN n", func() map[string]any {
+		return map[string]any{"props": &graph.Properties{Map: map[string]any{"name": "x", "tags": []string(nil), "n": 1}}}
+	}},
+	{"properties-set-and-deleted", "MATCH (n) WHERE n.name = $name SET n += $props RETURN n", func() map[string]any {
+		p := graph.NewProperties()
+		p.Set("a", 1)
+		p.Set("b", "two")
+		p.Delete("c")
+		return map[string]any{"props": p, "name": "x"}
+	}},
+	{"properties-nil-pointer", "MATCH (n $props) RETURN n", func() map[string]any {
+		return map[string]any{"props": (*graph.Properties)(nil)}
+	}},
+	{"kinds-and-ids", "MATCH (n) WHERE id(n) IN $ids AND n.kinds = $kinds RETURN n", func() map[string]any {
+		return map[string]any{"ids": []graph.ID(nil), "kinds": graph.Kinds{graph.StringKind("NodeKind1")}, "one": graph.ID(1)}
+	}},
+	{"time-pointers-and-slices", "MATCH (n) WHERE n.t < $t AND n.name IN $names RETURN n", func() map[string]any {
+		t := time.Unix(1700000000, 0).UTC()
+		return map[string]any{"t": &t, "names": []string{}, "empty": []any{}, "nilslice": []any(nil), "nested": map[string]any{"m": map[string]any(nil), "s": []int64{}}}
+	}},
+}
+
+// keys that differ only in case (ASCII and Unicode case pairs) in every map position, values as PARAMETERS so that the
+// order in which the items are walked shows in the parameter numbering
+var c05CaseKeyShapes = []string{
+	"MATCH (n {name: $lower, Name: $upper}) RETURN n",
+	"MATCH (n:NodeKind1 {name: $a, NAME: $b, Name: $c, nAmE: $d}) RETURN n",
+	"MATCH (a)-[r:EdgeKind1 {weight: $a, Weight: $b}]->(b {id: $c, ID: $d, Id: $e}) RETURN r",
+	"MATCH (n) WHERE n.name = $n SET n += {value: $a, Value: $b, VALUE: $c} RETURN n",
+	"CREATE (n:NodeKind1 {name: $a, Name: $b, kind: $c, KIND: $d}) RETURN n",
+	"CREATE (a:NodeKind1 {k: $a, K: $b})-[:EdgeKind1 {w: $c, W: $d}]->(b:NodeKind2 {k: $e, K: $f}) RETURN a",
+	"MATCH (n {straße: $a, STRASSE: $b, Straße: $c}) RETURN n",
+	"MATCH (n {ǆ: $a, ǅ: $b, Ǆ: $c}) RETURN n",
+	"MATCH (n {é: $a, É: $b, σ: $c, Σ: $d, ς: $e}) RETURN n",
+	"MATCH (n {name: 'a', Name: 'b', NAME: 'c'}) RETURN n",
+	"MATCH p = (a {x: $a, X: $b})-[:EdgeKind1*1..2 {y: $c, Y: $d}]->(b) RETURN p",
+	"MATCH (n {a: $p1, A: $p2, b: $p3, B: $p4, c: $p5, C: $p6}) RETURN n",
+}
+
+func genCaseKeyQuery(rng *Rng) string {
+	bases := []string{"name", "value", "objectid", "k", "é", "straße", "σ"}
+	variant := func(b string, i int) string {
+		switch i % 3 {
+		case 0:
+			return b
+		case 1:
+			return strings.ToUpper(b)
+		default:
+			r := []rune(b)
+			return strings.ToUpper(string(r[:1])) + string(r[1:])
+		}
+	}
+	np := 0
+	mapOf := func() string {
+		b := Pick(rng, bases)
+		n := 2 + rng.Intn(2)
+		var items []string
+		for i := 0; i < n; i++ {
+			k := variant(b, i)
+			if k == b && i > 0 {
+				k = b + "_"
+			}
+			np++
+			items = append(items, fmt.Sprintf("%s: $p%d", k, np))
+		}
+		if rng.Chance(1, 2) {
+			np++
+			items = append(items, fmt.Sprintf("%s: $p%d", Pick(rng, xlGenProps), np))
+		}
+		for i := len(items) - 1; i > 0; i-- {
+			j := rng.Intn(i + 1)
+			items[i], items[j] = items[j], items[i]
+		}
+		return "{" + strings.Join(items, ", ") + "}"
+	}
+	switch rng.Intn(5) {
+	case 0:
+		return "MATCH (n " + mapOf() + ") RETURN n"
+	case 1:
+		return "MATCH (a " + mapOf() + ")-[r:EdgeKind1 " + mapOf() + "]->(b) RETURN a, r"
+	case 2:
+		return "MATCH (n) WHERE id(n) = 1 SET n += " + mapOf() + " RETURN n"
+	case 3:
+		return "CREATE (n:NodeKind1 " + mapOf() + ") RETURN n"
+	default:
+		return "MATCH (a:NodeKind1 " + mapOf() + ") MATCH (a)-[:EdgeKind1*1..]->(b " + mapOf() + ") RETURN b"
+	}
 }
 
 // ---------------------------------------------------------------- queries with several path variables
